@@ -64,6 +64,53 @@ func liveRun(entS string, peers []string, hdr string) vlib.Res {
 			fail("live/" + proto + "/allowed-source-dropped")
 		}
 	}
+	// several queries pipelined in ONE segment on one TCP connection (RFC 7766):
+	// a denied source hears nothing for any of them, an allowed one gets them all
+	{
+		before := l.Stub.Calls.Load()
+		const k = 3
+		var seg []byte
+		for i := 0; i < k; i++ {
+			qq := q.Copy()
+			qq.Id = uint16(0x4100 + i)
+			b, _ := qq.Pack()
+			seg = append(seg, byte(len(b)>>8), byte(len(b)))
+			seg = append(seg, b...)
+		}
+		got := 0
+		if conn, err := net.DialTimeout("tcp", l.Addr, time.Second); err == nil {
+			conn.Write(seg)
+			wait := 400 * time.Millisecond
+			if loopAllowed {
+				wait = 2 * time.Second
+			}
+			conn.SetReadDeadline(time.Now().Add(wait))
+			var buf []byte
+			tmp := make([]byte, 4096)
+			for {
+				n, err := conn.Read(tmp)
+				buf = append(buf, tmp[:n]...)
+				for len(buf) >= 2 && len(buf) >= 2+int(buf[0])<<8+int(buf[1]) {
+					buf = buf[2+int(buf[0])<<8+int(buf[1]):]
+					got++
+				}
+				if err != nil || got >= k {
+					break
+				}
+			}
+			if len(buf) > 0 {
+				got++ // a partial frame is bytes sent all the same
+			}
+			conn.Close()
+		}
+		outs = append(outs, fmt.Sprintf("tcpp=%d", got))
+		if !loopAllowed && (got > 0 || l.Stub.Calls.Load() != before) {
+			fail("live/tcp/denied-source-served-pipelined")
+		}
+		if loopAllowed && got != k {
+			fail("live/tcp/allowed-source-dropped-pipelined")
+		}
+	}
 	// a UDP packet the strict wire parser declines (unknown EDNS option) takes the
 	// decoded fallback / worker replay: the source is judged all the same
 	{
